@@ -16,8 +16,8 @@ Ev == Trace[l]
 Header(nn) == << <<"TYPE:", "TSP">>, <<"DIMENSION:", ToString(nn)>>, <<"DISPLAY_DATA_TYPE:", "NO_DISPLAY">>,
                  <<"EDGE_WEIGHT_TYPE:", "EXPLICIT">>, <<"EDGE_WEIGHT_FORMAT:", "LOWER_DIAG_ROW">>, <<"EDGE_WEIGHT_SECTION">> >>
 (* the k-th weights call must be (i,j) in row-major lower-triangle order: (1,0),(2,0),(2,1),(3,0),... *)
-RECURSIVE PairAt(_)
-PairAt(k) == IF k = 1 THEN <<1, 0>> ELSE LET p == PairAt(k-1) IN IF p[2] + 1 < p[1] THEN <<p[1], p[2] + 1>> ELSE <<p[1] + 1, 0>>
+NextPair(w) == IF w = <<>> THEN <<1, 0>>
+               ELSE LET p == w[Len(w)] IN IF p.j + 1 < p.i THEN <<p.i, p.j + 1>> ELSE <<p.i + 1, 0>>
 Tri(i) == (i * (i - 1)) \div 2
 Row(i, w) == [j \in 1..(i + 1) |-> IF j = i + 1 THEN "0" ELSE w[Tri(i) + j].s]
 Expected(nn, w) == Header(nn) \o [i \in 1..nn |-> Row(i - 1, w)] \o << <<"EOF">> >>
@@ -54,7 +54,7 @@ TStep ==
             /\ st' = [st EXCEPT !.plans = @ \cup {<<Ev.n, Ev.w, Ev.at, Ev.kind, Ev.perm>>}]
             /\ UNCHANGED <<dead, bad, wvals, wcalls, failed>>
        ELSE IF Ev.ev = "Weights"
-       THEN LET k == Len(wvals) + 1  p == PairAt(k)
+       THEN LET p == NextPair(wvals)
                 why == IF ~(0 <= Ev.j /\ Ev.j < Ev.i /\ Ev.i < n) THEN "weights called outside 0 <= j < i < n"
                        ELSE IF <<Ev.i, Ev.j>> # p THEN "weights not called in row order" ELSE "" IN
             /\ Flag(why) /\ wvals' = Append(wvals, [i |-> Ev.i, j |-> Ev.j, s |-> Ev.s])
